@@ -16,7 +16,11 @@ RULE = ("files from the C11 generator restricted to option sets that always reco
         "a in {None,-n..n-1}, b in {None,-n+1..n} with 0<=a'<b'<=n after normalisation, c in {None,1..n}, under "
         "the file slice_ranges {1,2,3,n,n+1,None} (thorough: 2 of them per file), plus a sample of "
         "out-of-claim slices (a>=b, out of range, step<=0); append splits of one add history into 1-3 sessions; "
-        "FileGenerator over 1-3 files x slice_range in {1,2,3,100}; a case is one request on one file; "
+        "FileGenerator over 1-3 files x slice_range in {1,2,3,100}; LIVE-HANDLE sessions: random scripts on 1-2 open "
+        "readers of one file (different slice_ranges) that create handles by f[i], f[-i], f[a:b:c], iter(f), advance "
+        "iterators, close()+open() a reader, and examine every handle later, out of creation order and interleaved "
+        "with further accesses - each handle must show the event the model assigns to its access path; a case is one "
+        "request (or one session) on one file; "
         "distinct = distinct (file, request) pairs")
 LEVEL_TEXT = ("machine-checked Lean 4 theorems, for files of any length written by any add / reject / reopen history: "
               "chunked iteration with every slice_range >= 1, f[i] for -n <= i < n (IndexError outside), f[a:b:c] for every "
@@ -44,6 +48,9 @@ ASSUMPTIONS = [
     "FileGenerator is compared on particle id, vertex, direction (rounded to 1e-12 after re-normalisation), "
     "energy, interaction kind/inelasticity/em_frac/had_frac, survival and interaction weight, and on `count`",
     "stub antennas / ray paths / waveforms as in C11; h5py primitives follow their documented semantics",
+    "an event handle IS its iterator (EventIterator.__next__ returns self): handles obtained from one iterator are "
+    "the same object by design; independence is claimed and checked for handles of DIFFERENT iterators (every f[i], "
+    "f[a:b:c], iter(f) call creates one), also across close()/open() of the reader",
 ]
 
 
@@ -120,8 +127,52 @@ def make_files(run, ns, d):
 
 # ---------------------------------------------------------------------------------------------
 # correspondence jobs
+def _live_job(job, col, d):
+    """several handles / iterators of 1-2 open readers alive at once: what each handle shows when it is
+    examined later vs the event the MODEL assigns to its access path (iterators are values there)"""
+    spec, n, srs = job["spec"], job["n"], job["srs"]
+    b = H.write_file(spec, os.path.join(d, "l.h5"))
+    line = H.file_line(spec)
+    rng = random.Random(job["seed"])
+    for _ in range(job["scripts"]):
+        script = H.gen_script(rng, n, len(srs), job["length"])
+        obs, _alias = H.run_session(b.fn, srs, script)
+        reqs = []
+        for a in H.script_paths(script):
+            sr = H.tok(srs[a[1]])
+            if a[0] == "int":
+                reqs.append("int %s %d" % (line, a[2]))
+            elif a[0] == "slice":
+                reqs.append("slice %s %s %s %s %s" % (line, sr, H.tok(a[2]), H.tok(a[3]), H.tok(a[4])))
+            else:
+                reqs.append("iter %s %s" % (line, sr))
+        lists = []
+        for rq, rp in zip(reqs, fw.run_driver("C12", reqs)):
+            head, _, body = rp.partition(" | ")
+            if rq.startswith("int "):
+                lists.append([b.event_of_tags(body)] if head.strip() == "ok" else head.strip())
+            else:
+                lists.append(b.events_of_tags(body) if head.strip() == "stop" else head.strip())
+        desc = ("live", line, [H.tok(x) for x in srs], script)
+        col.case(desc, nontrivial=True, sample={"request": "live-handles " + repr(script)[:240], "model": repr(reqs[:2])[:200]})
+        col.count("live_sessions")
+        col.count("live_handles", len(reqs))
+        col.count("live_examinations", sum(1 for a in script if a[0] == "exam"))
+        col.count("live_reopen_actions", sum(1 for a in script if a[0] == "reopen"))
+        why = "model raised for an in-claim access path" if any(isinstance(x, str) for x in lists) else \
+            H.diff_session(script, H.session_expected(script, lists), obs)
+        if why is None:
+            col.traces += 1
+        else:
+            col.note_broken("correspondence: request `live-handles on %s readers %s script %r` model `%s` "
+                            "implementation `%s`" % (line[:300], srs, script, reqs[:3], why[:600]))
+    os.remove(b.fn)
+
+
 def _job(job, col, d):
     kind = job["kind"]
+    if kind == "live":
+        return _live_job(job, col, d)
     batch = H.Batch("C12", col)
     if kind == "base":
         spec, n = job["spec"], job["n"]
@@ -242,6 +293,11 @@ def correspondence(run):
         srs_used.setdefault(n, []).append([H.tok(s) for s in srs])
         for sr in srs:
             jobs.append({"kind": "slices", "spec": spec, "n": n, "sr": sr, "nmax": nmax})
+    for n, spec in files:
+        if n >= 2:
+            jobs.append({"kind": "live", "spec": spec, "n": n, "seed": run.rng.getrandbits(32),
+                         "srs": run.rng.choice([[None], [2], [None, 1], [3, None], [1, 2]]),
+                         "scripts": run.scale(6, 25), "length": 24})
     for _ in range(run.scale(12, 120)):
         jobs.append(gen_split(run.rng))
     for _ in range(run.scale(10, 100)):
@@ -353,9 +409,48 @@ def oracle_fg(specs, srs, d):
     return None
 
 
+def oracle_live(spec, n, srs, seed, nscripts, length, d):
+    """several handles of open readers alive at once, examined later and out of order: every handle must
+    keep showing the event of ONE sequential pass that its access path designates; distinct iterators
+    must not share their loaded-chunk storage (object identity)"""
+    fn = os.path.join(d, "lv.h5")
+    H.write_file(spec, fn)
+    try:
+        with H.Reader(fn, None) as r:
+            err, ref = r.iterate()
+        if err != "stop" or len(ref) != n:
+            return ("sequential pass failed", (err, len(ref)), n)
+        rng = random.Random(seed)
+        for _ in range(nscripts):
+            script = H.gen_script(rng, n, len(srs), length)
+            obs, alias = H.run_session(fn, srs, script)
+            lists = []
+            for a in H.script_paths(script):
+                if a[0] == "int":
+                    lists.append([ref[a[2] % n]])
+                elif a[0] == "slice":
+                    lists.append(ref[slice(a[2], a[3], a[4])])
+                else:
+                    lists.append(list(ref))
+            why = H.diff_session(script, H.session_expected(script, lists), obs)
+            if why:
+                return ("an event handle kept while other handles of the reader are used shows another event's data",
+                        {"script": script, "why": why}, "each handle keeps its own event")
+            if alias:
+                return ("distinct iterators of one reader share their loaded data", {"script": script, "alias": alias[:3]},
+                        "separate storage per iterator")
+        return None
+    finally:
+        if os.path.exists(fn):
+            os.remove(fn)
+
+
 def _search_job(job, col, d):
     kind = job["kind"]
-    if kind == "access":
+    if kind == "live":
+        res = oracle_live(job["spec"], job["n"], job["srs"], job["seed"], job["scripts"], job["length"], d)
+        col.case(("oracle-live", H.describe(job["spec"]), job["seed"]))
+    elif kind == "access":
         res = oracle_access(job["spec"], job["n"], job["seed"], job["nslices"], d)
         col.case(("oracle-access", H.describe(job["spec"])))
     elif kind == "split":
@@ -375,11 +470,18 @@ def search(run, deep):
     nmax = 12 if deep else 6
     jobs = []
     ns = [run.rng.randint(1, nmax) for _ in range(30 if deep else 4)]
+    nlive = 10 if deep else 2
+    ns += [run.rng.randint(3, nmax) for _ in range(nlive)]      # files used for the live-handle sessions only
     with H.tempdir() as d:
         files = make_files(run, ns, d)
-    for n, spec in files:
-        jobs.append({"kind": "access", "spec": spec, "n": n, "seed": run.rng.getrandbits(32),
-                     "nslices": 1500 if deep else 150})
+    for idx, (n, spec) in enumerate(files):
+        if idx < len(ns) - nlive:
+            jobs.append({"kind": "access", "spec": spec, "n": n, "seed": run.rng.getrandbits(32),
+                         "nslices": 1500 if deep else 150})
+        if n >= 2:
+            jobs.append({"kind": "live", "spec": spec, "n": n, "seed": run.rng.getrandbits(32),
+                         "srs": run.rng.choice([[None], [2], [None, 1], [3, None]]),
+                         "scripts": 40 if deep else 8, "length": 24})
     for _ in range(120 if deep else 6):
         j = gen_split(run.rng)
         jobs.append(j)
